@@ -8,6 +8,8 @@
    wall clock (clock), _last_command_timestamp (lastTs), the reading that passed the guard (g) and the
    timestamp of the command Interest that was put on the wire last (wireTs; nWire = how many so far).
    Only the correct design is described (no deviation disjuncts): this is what C17 demands of the code.
+   Calls may be cancelled by their caller at any of the three places where they are suspended (CancelWait,
+   CancelSleep, CancelSent): the semaphore discipline and the timestamp order survive any number of cancellations.
 
    Apalache proves IndInv inductive (Init => IndInv, IndInv /\ Next => IndInv') and that IndInv implies
      OneAtATime           at most one command is outstanding, however many calls were made
@@ -103,8 +105,19 @@ Reply == /\ cSent > 0 /\ cSent' = cSent - 1 /\ cRepl' = cRepl + 1 /\ Advance
 Finish == /\ cRepl > 0 /\ cRepl' = cRepl - 1 /\ semVal' = semVal + 1
           /\ UNCHANGED <<clock, lastTs, g, wireTs, nWire, waiting, cAcq, cOk, cFail, cSleep, cWoken, cSent>>
 
+\* The caller cancels a call in progress (NfdReg: CancelWaiting / CancelSleeping / CancelSent). A call is suspended
+\* in the queue of the semaphore, in the sleep of the guard loop or in the express of its command; it ends there:
+\* a waiter leaves the queue, a holder gives the semaphore back - without a command (its own, if already sent, stays
+\* on the wire). The clock may move in the run that follows.
+CancelWait == /\ waiting > 0 /\ waiting' = waiting - 1 /\ Advance
+              /\ UNCHANGED <<lastTs, g, wireTs, nWire, semVal, cAcq, cOk, cFail, cSleep, cWoken, cSent, cRepl>>
+CancelSleep == /\ cSleep > 0 /\ cSleep' = cSleep - 1 /\ semVal' = semVal + 1 /\ Advance
+               /\ UNCHANGED <<lastTs, g, wireTs, nWire, waiting, cAcq, cOk, cFail, cWoken, cSent, cRepl>>
+CancelSent == /\ cSent > 0 /\ cSent' = cSent - 1 /\ semVal' = semVal + 1 /\ Advance
+              /\ UNCHANGED <<lastTs, g, wireTs, nWire, waiting, cAcq, cOk, cFail, cSleep, cWoken, cRepl>>
+
 Next == Tick \/ AcquireFree \/ AcquireWait \/ AcquireWake \/ ReadPassA \/ ReadPassW \/ ReadFailA \/ ReadFailW
-        \/ Sleep \/ Wake \/ Send \/ Reply \/ Finish
+        \/ Sleep \/ Wake \/ Send \/ Reply \/ Finish \/ CancelWait \/ CancelSleep \/ CancelSent
 ISpec == Init /\ [][Next]_ivars
 
 \* Apalache needs every variable assigned before it is constrained
